@@ -30,7 +30,7 @@ def alloc2D (h : Heap) (lenX lenY : Nat) (vals : List Int) : Heap × View2D :=
   (h ++ [vals], { buf := h.length, lenX := lenX, lenY := lenY, strideX := 1, strideY := lenX })
 
 /-- `extract_slice_indices` of FixedArray2D: rejects `e < 0` (so a backward slice reaching index 0 raises) -/
-def extract2D (len : Nat) (idx : PyIdx) : Except Err SliceIdx := extractSliceIndices len idx 0
+def extract2D (len : Nat) (idx : PyIdx) : Except Err SliceIdx := extractSliceIndices len idx 0 0
 
 /-- `getitem(i, j)` (exposed as `.item`) -/
 def item (h : Heap) (v : View2D) (i j : Int) : Except Err Int :=
